@@ -3,5 +3,6 @@ CHECK_DEADLOCK FALSE
 INVARIANT TypeOK
 INVARIANT OrderIndependent
 INVARIANT CanonIdempotent
+INVARIANT BufferIndependent
 INVARIANT TokensWellFormed
 INVARIANT AcceptInDomain
